@@ -1,6 +1,9 @@
 package e5
 
 import (
+	"context"
+	"encoding/json"
+	"errors"
 	"fmt"
 	"net"
 	"net/http"
@@ -10,9 +13,15 @@ import (
 	"sync"
 	"time"
 
+	"github.com/prometheus/client_golang/prometheus"
 	"github.com/prometheus/prometheus/discovery/targetgroup"
 
 	"kvassverif/internal/core"
+	"kvassverif/internal/sc"
+	"tkestack.io/kvass/pkg/api"
+	"tkestack.io/kvass/pkg/coordinator"
+	"tkestack.io/kvass/pkg/shard"
+	"tkestack.io/kvass/pkg/target"
 )
 
 // More targets asked for in one coordinator period than the explorer's queue holds (10000) plus its workers, while
@@ -165,5 +174,121 @@ func runC20Flood(w *core.WorkerCtx, k int) *core.CaseResult {
 	if bad > 0 {
 		res.Violate("C20/flood/estimate-missing", "%d of %d probed targets carry no healthy estimate of 1 series", bad, n)
 	}
+	return res
+}
+
+// RunC03Flood: the same burst in a closed loop - the real coordinator (one stub shard with unlimited room) asks for
+// more than 10000 + workers new targets in its first cycle; "every healthy target that fits into a shard ends up
+// scraped by exactly one shard": all of them must reach the shard's target list; the run ends when they have, or
+// when 100 coordination cycles have passed without a single new target being assigned.
+func RunC03Flood(w *core.WorkerCtx, k int) *core.CaseResult {
+	r := core.NewRng(w.Seed, 0xC03F100D, uint64(k))
+	workers := []int{8, 4, 16}[k%3]
+	n := 10000 + workers + 200 + r.Intn(600)
+	res := &core.CaseResult{Sig: fmt.Sprintf("flood-closed-loop/%d/workers%d", n, workers), Execs: 1, Nontrivial: true}
+	srv := httptest.NewServer(http.HandlerFunc(func(rw http.ResponseWriter, rq *http.Request) {
+		time.Sleep(2 * time.Millisecond)
+		_, _ = rw.Write([]byte("m 1\n"))
+	}))
+	defer srv.Close()
+	addr := srv.Listener.Addr().(*net.TCPAddr).String()
+	p := newPipeline(workers)
+	defer p.close()
+	if err := p.cm.ReloadFromRaw([]byte("global:\n  scrape_interval: 15s\n  scrape_timeout: 10s\nscrape_configs:\n- job_name: ja\n")); err != nil {
+		res.Inconcl = "config: " + err.Error()
+		return res
+	}
+	var ts []map[string]string
+	for i := 0; i < n; i++ {
+		ts = append(ts, map[string]string{"__address__": addr, "__metrics_path__": fmt.Sprintf("/t/%d", i), "tid": fmt.Sprint(i)})
+	}
+	if err := p.update(map[string][]*targetgroup.Group{"ja": {group("ja/0", ts)}}); err != nil {
+		res.Inconcl = "update: " + err.Error()
+		return res
+	}
+	var mu sync.Mutex
+	posted := map[uint64]*target.ScrapeStatus{}
+	cycles, assigned := 0, 0
+	mgr := &stubMgr{mk: func() *shard.Shard {
+		s := shard.NewShard("shard-0", "http://stub", true, sc.Quiet)
+		s.APIGet = func(url string, ret interface{}) error {
+			var data interface{}
+			mu.Lock()
+			switch {
+			case strings.HasSuffix(url, "/targets/status/"):
+				cp := map[uint64]*target.ScrapeStatus{}
+				for h, st := range posted {
+					c := *st
+					cp[h] = &c
+				}
+				data = cp
+			case strings.HasSuffix(url, "/runtimeinfo/"):
+				cycles++
+				data = &shard.RuntimeInfo{ConfigHash: p.cm.ConfigInfo().ConfigHash}
+			}
+			mu.Unlock()
+			if data == nil {
+				return errors.New("unknown")
+			}
+			b, _ := json.Marshal(api.Data(data))
+			return json.Unmarshal(b, api.Data(ret))
+		}
+		s.APIPost = func(url string, req interface{}, ret interface{}) error {
+			if !strings.HasSuffix(url, "/shard/targets/") {
+				return nil
+			}
+			b, _ := json.Marshal(req)
+			var rq shard.UpdateTargetsRequest
+			_ = json.Unmarshal(b, &rq)
+			np := map[uint64]*target.ScrapeStatus{}
+			for _, l := range rq.Targets {
+				for _, t := range l {
+					st := target.NewScrapeStatus(t.Series, t.TotalSeries)
+					st.TargetState = t.TargetState
+					st.Health = "up"
+					st.ScrapeTimes = 5
+					np[t.Hash] = st
+				}
+			}
+			mu.Lock()
+			posted = np
+			assigned = len(np)
+			mu.Unlock()
+			return nil
+		}
+		return s
+	}}
+	co := coordinator.NewCoordinator(&coordinator.Option{MaxHeadSeries: 0, MaxProcessSeries: 1 << 40, MaxShard: 1, MinShard: 1, Period: 100 * time.Millisecond},
+		&stubRM{m: mgr}, p.cm.ConfigInfo, p.exp.Get, p.disc.ActiveTargetsByHash, prometheus.NewRegistry(), sc.Quiet)
+	cctx, cancel := context.WithCancel(context.Background())
+	defer cancel()
+	go func() { _ = co.Run(cctx) }()
+	start := time.Now()
+	lastAssigned, lastCycle := -1, 0
+	for {
+		mu.Lock()
+		a, c := assigned, cycles
+		mu.Unlock()
+		if a != lastAssigned {
+			lastAssigned, lastCycle = a, c
+		}
+		if a >= n {
+			break
+		}
+		if c-lastCycle >= 100 {
+			res.Violate("C03/flood/stays-unscraped", "%d healthy one-series targets appear at once (explorer queue 10000, %d workers, one shard with unlimited room): after %d coordination cycles %d of them are in the shard's list and the last 100 cycles assigned none of the other %d", n, workers, c, a, n-a)
+			break
+		}
+		if time.Since(start) > 240*time.Second {
+			res.Inconcl = fmt.Sprintf("watchdog: %d of %d targets assigned after 240 s and %d cycles", a, n, c)
+			return res
+		}
+		time.Sleep(50 * time.Millisecond)
+	}
+	res.AddStat("flood_closed_loop_targets", int64(n))
+	res.AddStat("flood_closed_loop_targets_assigned", int64(lastAssigned))
+	mu.Lock()
+	res.AddSet("flood_closed_loop_cycles", fmt.Sprint(cycles/10*10))
+	mu.Unlock()
 	return res
 }
